@@ -189,11 +189,121 @@ func FileSummary(path string) map[string]any {
 		rec["cls"] = t.Class
 		rec["tag"] = t.Tag
 		rec["cons"] = t.Constructed
+		if wok {
+			for k, v := range recordContent(b, pay, pay+total) {
+				rec[k] = v
+			}
+		}
 		recs = append(recs, rec)
 		p = pay + total
 	}
 	out["recs"] = recs
 	out["complete"] = complete
 	out["end"] = p
+	return out
+}
+
+// ---- content of one CHF record, read with the generic walker only (tag numbers from TS 32.298) ----
+
+type tlvNode struct {
+	t        TLV
+	off, end int // content range
+}
+
+func children(b []byte, off, end int) []tlvNode {
+	var out []tlvNode
+	p := off
+	for p < end {
+		t, ok := ParseTLVHeader(b[:end], p)
+		if !ok {
+			return out
+		}
+		out = append(out, tlvNode{t: t, off: p + t.HdrLen, end: p + t.HdrLen + t.Len})
+		p += t.HdrLen + t.Len
+	}
+	return out
+}
+
+// leaf descends through constructed wrappers to the first primitive element.
+func leaf(b []byte, n tlvNode) (tlvNode, bool) {
+	for depth := 0; n.t.Constructed && depth < 8; depth++ {
+		cs := children(b, n.off, n.end)
+		if len(cs) == 0 {
+			return n, false
+		}
+		n = cs[0]
+	}
+	return n, !n.t.Constructed
+}
+
+func leafInt(b []byte, n tlvNode) int64 {
+	l, ok := leaf(b, n)
+	if !ok || l.end-l.off == 0 || l.end-l.off > 8 {
+		return -1
+	}
+	v := int64(int8(b[l.off]))
+	for i := l.off + 1; i < l.end; i++ {
+		v = v<<8 | int64(b[i])
+	}
+	return clamp31(v)
+}
+
+func ctx(cs []tlvNode, tag int) (tlvNode, bool) {
+	for _, c := range cs {
+		if c.t.Class == 2 && c.t.Tag == tag {
+			return c, true
+		}
+	}
+	return tlvNode{}, false
+}
+
+// recordContent: session reference [16], cause for closing [9], record sequence number [8] and, in order, the
+// used-unit containers of listOfMultipleUnitUsage [5] as [lsn, rg, total, uplink, downlink, ssu] (-1 = absent).
+func recordContent(b []byte, off, end int) map[string]any {
+	out := map[string]any{"ref": "", "cause": -1, "rsn": -1, "conts": []any{}, "contsSkipped": false}
+	top, ok := ParseTLVHeader(b[:end], off)
+	if !ok || !top.Constructed {
+		return out
+	}
+	fields := children(b, off+top.HdrLen, end)
+	// the record may sit inside one more constructed wrapper (SET / SEQUENCE)
+	if len(fields) == 1 && fields[0].t.Class == 0 && fields[0].t.Constructed {
+		fields = children(b, fields[0].off, fields[0].end)
+	}
+	if n, ok := ctx(fields, 16); ok {
+		if l, ok := leaf(b, n); ok {
+			out["ref"] = string(b[l.off:l.end])
+		}
+	}
+	if n, ok := ctx(fields, 9); ok {
+		out["cause"] = leafInt(b, n)
+	}
+	if n, ok := ctx(fields, 8); ok {
+		out["rsn"] = leafInt(b, n)
+	}
+	conts := []any{}
+	if n, ok := ctx(fields, 5); ok {
+		get := func(cs []tlvNode, tag int) int64 {
+			if c, ok := ctx(cs, tag); ok {
+				return leafInt(b, c)
+			}
+			return -1
+		}
+		for _, mu := range children(b, n.off, n.end) {
+			mf := children(b, mu.off, mu.end)
+			rg := get(mf, 0)
+			if ul, ok := ctx(mf, 1); ok {
+				for _, uc := range children(b, ul.off, ul.end) {
+					cf := children(b, uc.off, uc.end)
+					conts = append(conts, []int64{get(cf, 9), rg, get(cf, 4), get(cf, 5), get(cf, 6), get(cf, 7)})
+				}
+			}
+		}
+	}
+	if len(conts) > 600 {
+		out["contsSkipped"] = true
+		conts = []any{}
+	}
+	out["conts"] = conts
 	return out
 }
